@@ -55,6 +55,9 @@ def run(chk, which="C16"):
         if model.count_leaves(t) > 4 or any(x in repr(t) for x in ("Hertz", "Becquerel", "Celsius", "Fahrenheit", "Rankines", "Kelvins")):
             continue
         cexprs.append((f"gen{k}", f"au::make_constant({model.spell(t, 'unit', units)})", None))
+    # ad hoc constants whose unit is an anonymous scaled unit (the documented make_constant(unit_expr * mag<N>()) form)
+    cexprs += [("adhoc_c", "au::make_constant(au::Meters{} / au::Seconds{} * au::mag<299792458>())", None), ("adhoc_r", "au::make_constant(au::Meters{} * au::mag<3>() / au::mag<7>())", None),
+               ("adhoc_pi", "au::make_constant(au::Radians{} * au::Magnitude<au::Pi>{} / au::mag<180>())", None)]
     ratios = ratio_trees(rnd, tier)
     # ratios inside the subnormal band of float / double that are not pure inverse integers (those convert by multiplying with
     # one stored number, which is representable): two of them for every constant, in every run
@@ -103,7 +106,12 @@ def run(chk, which="C16"):
                      ("C*C", f"vfy::reify_wrapped_unit(TAG, {cexpr} * {cexpr});", "C*C"), ("C/maker", f"vfy::reify_wrapped_unit(TAG, {cexpr} / au::{units[oname].maker});", "C/O"),
                      ("maker*C", f"vfy::reify_wrapped_unit(TAG, au::{units[oname].maker} * {cexpr});", "O*C"),
                      ("C*mag", f"vfy::reify_wrapped_unit(TAG, {cexpr} * au::mag<5280>());", "C*5280"), ("C/mag", f"vfy::reify_wrapped_unit(TAG, {cexpr} / au::mag<7>());", "C/7"),
-                     ("pow<2>(C)", f"vfy::reify_wrapped_unit(TAG, pow<2>({cexpr}));", "C^2")]
+                     ("pow<2>(C)", f"vfy::reify_wrapped_unit(TAG, pow<2>({cexpr}));", "C^2"),
+                     # magnitudes that are exactly one, in every position and spelling: the unit must not change at all
+                     ("C*ONE", f"vfy::reify_wrapped_unit(TAG, {cexpr} * au::mag<1>());", "C"), ("ONE*C", f"vfy::reify_wrapped_unit(TAG, au::mag<1>() * {cexpr});", "C"),
+                     ("C/ONE", f"vfy::reify_wrapped_unit(TAG, {cexpr} / au::mag<1>());", "C"), ("C*(5/5)", f"vfy::reify_wrapped_unit(TAG, {cexpr} * (au::mag<5>() / au::mag<5>()));", "C"),
+                     ("C*pow<0>", f"vfy::reify_wrapped_unit(TAG, {cexpr} * au::pow<0>(au::mag<10>()));", "C"), ("mag*C", f"vfy::reify_wrapped_unit(TAG, au::mag<5280>() * {cexpr});", "C*5280"),
+                     ("mag/C", f"vfy::reify_wrapped_unit(TAG, au::mag<5280>() / {cexpr});", "5280/C")]
             if T in ("double", "float"):
                 # constant divided by a floating number / quantity: the stored number is the raw reciprocal in the same rep
                 forms += [("C/q", f"vfy::reify_composed(TAG, {cexpr} / au::{units[oname].maker}({x}), ({T})1 / ({T}){x});", "C/O"),
@@ -218,7 +226,7 @@ def run(chk, which="C16"):
                 E = model
                 table = {"C": (cd, cm), "1/C": (E.einv(cd), E.einv(cm)), "O*C": (E.emul(od, cd), E.emul(om, cm)), "O/C": (E.emul(od, E.einv(cd)), E.emul(om, E.einv(cm))),
                          "C/O": (E.emul(cd, E.einv(od)), E.emul(cm, E.einv(om))), "C*C": (E.epow(cd, 2), E.epow(cm, 2)), "C^2": (E.epow(cd, 2), E.epow(cm, 2)),
-                         "C*5280": (cd, E.emul(cm, E.mag_of_int(5280))), "C/7": (cd, E.emul(cm, E.einv(E.mag_of_int(7))))}
+                         "C*5280": (cd, E.emul(cm, E.mag_of_int(5280))), "5280/C": (E.einv(cd), E.emul(E.einv(cm), E.mag_of_int(5280))), "C/7": (cd, E.emul(cm, E.einv(E.mag_of_int(7))))}
                 wd, wm = table[um]
                 gd, gm = model.parse_dim_event(ev["dim"]), model.parse_mag_event(ev["mag"])
                 if model.ekey(gd) != model.ekey(wd) or model.ekey(gm) != model.ekey(wm):
